@@ -2127,11 +2127,15 @@ class TypeBlocks(ContainerOperand):
             return TypeBlocks.from_blocks(b[row_key, column])
 
         # pass a generator to from_block; will return a TypeBlocks or a single element
+        if row_key is None or isinstance(row_key, INT_TYPES):
+            rows = self._shape[0]
+        else: # the number of rows the key selects: binding when no block is yielded
+            rows = len(np.arange(self._shape[0])[row_key])
         return self.from_blocks(
                 self._slice_blocks(
                         row_key=row_key,
                         column_key=column_key),
-                shape_reference=self._shape
+                shape_reference=(rows, self._shape[1])
                 )
 
     def _extract_iloc(self,
